@@ -271,36 +271,43 @@ package constraint
 //@   maypanic
 //@   ensures panics <==> (len(ruleValue) == 0 || (exists k :: 0 <= k && k < len(ruleValue) && !isDigit(ruleValue[k])) || decVal(ruleValue, len(ruleValue)) > 18446744073709551615)
 //@   ensures normal ==> fresh(result) && result.value == decVal(ruleValue, len(ruleValue))
+//@   ensures panics ==> !typeis(pv, errors.DocumentError)
 //@ func NewMaxLength(ruleValue)
 //@   props C02 C08
 //@   maypanic
 //@   ensures panics <==> (len(ruleValue) == 0 || (exists k :: 0 <= k && k < len(ruleValue) && !isDigit(ruleValue[k])) || decVal(ruleValue, len(ruleValue)) > 18446744073709551615)
 //@   ensures normal ==> fresh(result) && result.value == decVal(ruleValue, len(ruleValue))
+//@   ensures panics ==> !typeis(pv, errors.DocumentError)
 //@ func NewMinItems(ruleValue)
 //@   props C04 C08
 //@   maypanic
 //@   ensures panics <==> (len(ruleValue) == 0 || (exists k :: 0 <= k && k < len(ruleValue) && !isDigit(ruleValue[k])) || decVal(ruleValue, len(ruleValue)) > 18446744073709551615)
 //@   ensures normal ==> fresh(result) && result.value == decVal(ruleValue, len(ruleValue))
+//@   ensures panics ==> !typeis(pv, errors.DocumentError)
 //@ func NewMaxItems(ruleValue)
 //@   props C04 C08
 //@   maypanic
 //@   ensures panics <==> (len(ruleValue) == 0 || (exists k :: 0 <= k && k < len(ruleValue) && !isDigit(ruleValue[k])) || decVal(ruleValue, len(ruleValue)) > 18446744073709551615)
 //@   ensures normal ==> fresh(result) && result.value == decVal(ruleValue, len(ruleValue))
+//@   ensures panics ==> !typeis(pv, errors.DocumentError)
 //@ func NewPrecision(ruleValue)
 //@   props C02 C08 C10
 //@   maypanic
 //@   ensures panics <==> (len(ruleValue) == 0 || (exists k :: 0 <= k && k < len(ruleValue) && !isDigit(ruleValue[k])) || decVal(ruleValue, len(ruleValue)) > 18446744073709551615 || decVal(ruleValue, len(ruleValue)) == 0)
 //@   ensures normal ==> fresh(result) && result.value == decVal(ruleValue, len(ruleValue))
+//@   ensures panics ==> !typeis(pv, errors.DocumentError)
 //@ func NewExclusiveMinimum(ruleValue)
 //@   props C02 C08
 //@   maypanic
 //@   ensures panics <==> !(beq(ruleValue, "true") || beq(ruleValue, "false"))
 //@   ensures normal ==> fresh(result) && result.exclusive == beq(ruleValue, "true")
+//@   ensures panics ==> !typeis(pv, errors.DocumentError)
 //@ func NewExclusiveMaximum(ruleValue)
 //@   props C02 C08
 //@   maypanic
 //@   ensures panics <==> !(beq(ruleValue, "true") || beq(ruleValue, "false"))
 //@   ensures normal ==> fresh(result) && result.exclusive == beq(ruleValue, "true")
+//@   ensures panics ==> !typeis(pv, errors.DocumentError)
 //@ func NewType(ruleValue, source)
 //@   props C03 C08
 //@   nopanic
@@ -335,18 +342,21 @@ package constraint
 //@   maypanic
 //@   ensures panics <==> !(beq(value, "true") || beq(value, "false"))
 //@   ensures normal ==> fresh(result) && result.apply == beq(value, "true") && result.nodeValue == nodeValue
+//@   ensures panics ==> !typeis(pv, errors.DocumentError)
 
 //@ func NewNullable(ruleValue)
 //@   props C02
 //@   maypanic
 //@   ensures panics <==> !(beq(ruleValue, "true") || beq(ruleValue, "false"))
 //@   ensures normal ==> fresh(result) && result.value == beq(ruleValue, "true")
+//@   ensures panics ==> !typeis(pv, errors.DocumentError)
 
 //@ func NewOptional(ruleValue)
 //@   props C02 C01
 //@   maypanic
 //@   ensures panics <==> !(beq(ruleValue, "true") || beq(ruleValue, "false"))
 //@   ensures normal ==> fresh(result) && result.value == beq(ruleValue, "true")
+//@   ensures panics ==> !typeis(pv, errors.DocumentError)
 
 // ---- numeric rules (C02, C10): strictness comes from the exclusive flag ----
 
@@ -669,3 +679,73 @@ package constraint
 //@   ensures result == nil && len(b) == 45 ==> b[17] == '-' && b[22] == '-' && b[27] == '-' && b[32] == '-'
 //@   loop 0 invariant 0 <= i && i <= 32 && i % 2 == 0 && len(b) == 32
 //@   loop 1 invariant len(b) >= 36
+
+// C01/C04: what `additionalProperties: V` means is decided by the UNQUOTED text of V:
+// any/true - anything; false - nothing; @Name - that user type; a type keyword - that
+// type; everything else is an error
+//@ func newEmptyRuleASTNode()
+//@   props C16
+//@   nopanic
+//@   ensures fresh(result.Properties) && result.Source == jschema.RuleASTNodeSourceManual && len(result.Items) == 0
+//@ func NewAdditionalProperties(ruleValue)
+//@   props C01 C08
+//@   requires len(ruleValue) <= 1000000000000
+//@   maypanic
+//@   ensures normal ==> fresh(result)
+//@   ensures beq(unqOf(ruleValue), "any") || beq(unqOf(ruleValue), "true") ==> normal && result.mode == AdditionalPropertiesCanBeAny
+//@   ensures beq(unqOf(ruleValue), "false") ==> normal && result.mode == AdditionalPropertiesNotAllowed
+//@   ensures userTypeName(unqOf(ruleValue)) ==> normal && result.mode == AdditionalPropertiesMustBeUserType && result.typeName == unqOf(ruleValue)
+//@   ensures normal && !(beq(unqOf(ruleValue), "any") || beq(unqOf(ruleValue), "true") || beq(unqOf(ruleValue), "false") || userTypeName(unqOf(ruleValue)))
+//@           ==> result.mode == AdditionalPropertiesMustBeSchemaType && isSchemaTypeName(result.schemaType) && spells(unqOf(ruleValue), result.schemaType)
+//@   ensures panics ==> typeis(pv, errors.Errorf) && unbox(pv, errors.Errorf).code == errors.ErrUnknownJSchemaType && errWF(pv)
+
+// C02/C10: min/max carry the exact parsed bound and start non-strict
+//@ func NewMin(ruleValue)
+//@   props C02 C10 C08
+//@   assumes len(ruleValue) <= 1000000000000
+//@   maypanic
+//@   ensures panics <==> !parseOK(ruleValue)
+//@   ensures normal ==> fresh(result) && result.rawValue == ruleValue && !result.exclusive && result.min != nil && normNumber(*result.min)
+//@   ensures normal ==> (forall a json.Number {cmpExact(a, *result.min)} :: cmpExact(a, *result.min) == parsedCmp(a, ruleValue))
+//@   ensures panics ==> !typeis(pv, errors.DocumentError)
+//@ func NewMax(ruleValue)
+//@   props C02 C10 C08
+//@   assumes len(ruleValue) <= 1000000000000
+//@   maypanic
+//@   ensures panics <==> !parseOK(ruleValue)
+//@   ensures normal ==> fresh(result) && result.rawValue == ruleValue && !result.exclusive && result.max != nil && normNumber(*result.max)
+//@   ensures normal ==> (forall a json.Number {cmpExact(a, *result.max)} :: cmpExact(a, *result.max) == parsedCmp(a, ruleValue))
+//@   ensures panics ==> !typeis(pv, errors.DocumentError)
+
+// regex parameter: decoded by encoding/json and compiled by regexp - both outside the module
+//@ func NewRegex(value)
+//@   props C02
+//@   trusted "encoding/json.Unmarshal + regexp.MustCompile: only the shape of the result is assumed"
+//@   maypanic
+//@   ensures normal ==> fresh(result) && result.re != nil
+//@   ensures panics ==> !typeis(pv, errors.DocumentError)
+
+// C08/C13: which rule a rule name denotes - independent of blanks around the name and
+// of quoting; an unknown name is an error positioned at the name
+//@ func NewConstraintFromRule(ruleNameLex, ruleValue, nodeValue)
+//@   props C08 C13
+//@   requires lexWF(ruleNameLex) && len(ruleValue) <= 1000000000000 && len(lexBytes(ruleNameLex)) <= 1000000000000
+//@   maypanic
+//@   ensures normal && beq(ruleNameText(lexBytes(ruleNameLex)), "minLength") ==> typeis(result, *MinLength)
+//@   ensures normal && beq(ruleNameText(lexBytes(ruleNameLex)), "maxLength") ==> typeis(result, *MaxLength)
+//@   ensures normal && beq(ruleNameText(lexBytes(ruleNameLex)), "min") ==> typeis(result, *Min)
+//@   ensures normal && beq(ruleNameText(lexBytes(ruleNameLex)), "max") ==> typeis(result, *Max)
+//@   ensures normal && beq(ruleNameText(lexBytes(ruleNameLex)), "exclusiveMinimum") ==> typeis(result, *ExclusiveMinimum)
+//@   ensures normal && beq(ruleNameText(lexBytes(ruleNameLex)), "exclusiveMaximum") ==> typeis(result, *ExclusiveMaximum)
+//@   ensures normal && beq(ruleNameText(lexBytes(ruleNameLex)), "type") ==> typeis(result, *TypeConstraint) && unbox(result, *TypeConstraint).value == ruleValue
+//@   ensures normal && beq(ruleNameText(lexBytes(ruleNameLex)), "precision") ==> typeis(result, *Precision)
+//@   ensures normal && beq(ruleNameText(lexBytes(ruleNameLex)), "optional") ==> typeis(result, *Optional)
+//@   ensures normal && beq(ruleNameText(lexBytes(ruleNameLex)), "minItems") ==> typeis(result, *MinItems)
+//@   ensures normal && beq(ruleNameText(lexBytes(ruleNameLex)), "maxItems") ==> typeis(result, *MaxItems)
+//@   ensures normal && beq(ruleNameText(lexBytes(ruleNameLex)), "additionalProperties") ==> typeis(result, *AdditionalProperties)
+//@   ensures normal && beq(ruleNameText(lexBytes(ruleNameLex)), "nullable") ==> typeis(result, *Nullable)
+//@   ensures normal && beq(ruleNameText(lexBytes(ruleNameLex)), "regex") ==> typeis(result, *Regex)
+//@   ensures normal && beq(ruleNameText(lexBytes(ruleNameLex)), "const") ==> typeis(result, *Const) && unbox(result, *Const).nodeValue == nodeValue
+//@   ensures !knownRuleName(ruleNameText(lexBytes(ruleNameLex)))
+//@           ==> panics && typeis(pv, errors.DocumentError) && unbox(pv, errors.DocumentError).code == errors.ErrUnknownRule && unbox(pv, errors.DocumentError).index == ruleNameLex.begin && unbox(pv, errors.DocumentError).hasIndex
+//@   ensures panics && typeis(pv, errors.DocumentError) ==> !knownRuleName(ruleNameText(lexBytes(ruleNameLex)))
